@@ -167,6 +167,8 @@ structure Inv (nx : Nat) (iA : Nat → Nat → Nat) (s : St) : Prop where
   sel : ∀ c r, M s.cols c r = true → iA r c ∈ s.selected
   /-- no value is marked for two different rows -/
   inj : ∀ c c' r r', M s.cols c r = true → M s.cols c' r' = true → iA r c = iA r' c' → r = r'
+  /-- `selected` holds nothing but values under marks -/
+  from_mark : ∀ v ∈ s.selected, ∃ c r, M s.cols c r = true ∧ iA r c = v
 
 theorem Inv_init (nx : Nat) (iA : Nat → Nat → Nat) : Inv nx iA ⟨[], []⟩ := by
   have hno : ∀ c r, M ([] : List (List Bool)) c r = true → False := by
@@ -178,6 +180,7 @@ theorem Inv_init (nx : Nat) (iA : Nat → Nat → Nat) : Inv nx iA ⟨[], []⟩ 
   · intro c c' r h; exact (hno c r h).elim
   · intro c r h; exact (hno c r h).elim
   · intro c c' r r' h; exact (hno c r h).elim
+  · intro v hv; simp at hv
 
 theorem markNow_iff (cr fv : List Nat) (cols : List (List Bool)) (col : Nat → Nat) (r : Nat) :
     markNow cr fv cols col r = true ↔ r ∈ cr ∧ col r ∈ fv ∧ ∀ c, M cols c r = false := by
@@ -271,6 +274,14 @@ theorem Inv_step {U : List Nat → List (Nat × List Nat)} (hU : OccSound U) {nx
       exact absurd this (not_mem_of_mem_freeVals h3)
     · subst hc; subst hc'
       exact closestRows_inj hU nx _ d h2 h2' hv
+  · intro v hv
+    unfold stepCol at hv
+    simp only [List.mem_append, List.mem_map, List.mem_filter, List.mem_range] at hv
+    rcases hv with hv | ⟨r, ⟨h1, hmk⟩, rfl⟩
+    · obtain ⟨c, r, hm, hv⟩ := h.from_mark v hv
+      exact ⟨c, r, (M_stepCol_iff ..).mpr (Or.inl hm), hv⟩
+    · obtain ⟨h2, h3, h4⟩ := (markNow_iff _ _ _ _ _).mp hmk
+      exact ⟨s.cols.length, r, (M_stepCol_iff ..).mpr (Or.inr ⟨rfl, h1, h2, h3, h4⟩), rfl⟩
 
 theorem runCols_succ (U : List Nat → List (Nat × List Nat)) (nx : Nat) (iA : Nat → Nat → Nat) (dA : Nat → Nat → Dist)
     (K : Nat) :
@@ -501,5 +512,203 @@ theorem mem_zip_of_mark {U : List Nat → List (Nat × List Nat)} {nx ny K : Nat
   simp only
   refine mem_zip_filterMap_of_isSome _ _ (fun x hx => (List.mem_filter.mp hx).2) ?_ hf
   exact List.mem_filter.mpr ⟨List.mem_range.mpr hx, by simp [hf]⟩
+
+/-! ### order on distances, minimality of the closest claimant -/
+
+theorem dle_refl (a : Dist) : dle a a = true := by
+  cases a with
+  | none => rfl
+  | some x => simp [dle, dlt, Rat.lt_irrefl]
+
+theorem dle_trans {a b c : Dist} (h1 : dle a b = true) (h2 : dle b c = true) : dle a c = true := by
+  cases a <;> cases b <;> cases c <;> simp_all [dle, dlt]
+  rename_i x y z
+  exact Rat.not_lt.mpr (Rat.le_trans (Rat.not_lt.mp h1) (Rat.not_lt.mp h2))
+
+theorem dle_of_dlt {a b : Dist} (h : dlt a b = true) : dle a b = true := by
+  cases a <;> cases b <;> simp_all [dle, dlt]
+  rename_i x y
+  grind
+
+theorem closestFrom_min (d : Nat → Dist) (best : Nat) (rs : List Nat) :
+    ∀ x ∈ best :: rs, dle (d (closestFrom d best rs)) (d x) = true := by
+  induction rs generalizing best with
+  | nil => intro x hx; simp at hx; subst hx; exact dle_refl _
+  | cons r rs ih =>
+    intro x hx
+    simp only [closestFrom]
+    have ih' := ih (if dlt (d r) (d best) then r else best)
+    have hb := ih' _ (List.mem_cons_self)
+    simp only [List.mem_cons] at hx
+    rcases hx with rfl | rfl | hx
+    · refine dle_trans hb ?_
+      split
+      · rename_i h; exact dle_of_dlt h
+      · exact dle_refl _
+    · refine dle_trans hb ?_
+      split
+      · exact dle_refl _
+      · rename_i h; simpa [dle] using h
+    · exact ih' x (List.mem_cons_of_mem _ hx)
+
+theorem closest_min {d : Nat → Dist} {occ : List Nat} {r : Nat} (h : closest d occ = some r) :
+    ∀ x ∈ occ, dle (d r) (d x) = true := by
+  cases occ with
+  | nil => simp [closest] at h
+  | cons a t =>
+    simp only [closest, Option.some.injEq] at h
+    subst h
+    exact closestFrom_min d a t
+
+theorem mem_insertSorted (v x : Nat) (l : List Nat) : x ∈ insertSorted v l ↔ x = v ∨ x ∈ l := by
+  fun_induction insertSorted v l <;> simp_all <;> grind
+
+theorem mem_isort (x : Nat) (l : List Nat) : x ∈ isort l ↔ x ∈ l := by
+  fun_induction isort l <;> simp_all [mem_insertSorted]
+
+theorem mem_dedupAdj (x : Nat) (l : List Nat) : x ∈ dedupAdj l ↔ x ∈ l := by
+  fun_induction dedupAdj l <;> simp_all
+
+theorem mem_uniqueVals (v : Nat) (col : List Nat) : v ∈ uniqueVals col ↔ v ∈ col := by
+  unfold uniqueVals; rw [mem_dedupAdj, mem_isort]
+
+/-! ### the repaired loop, declaratively -/
+
+/-- column `c` of the index table as the list the code passes to `_unique_inds` -/
+def colList (nx : Nat) (iA : Nat → Nat → Nat) (c : Nat) : List Nat := (List.range nx).map fun r => iA r c
+
+/-- the closest claimant of candidate `v` in column `c`: among the rows whose `c`-th neighbour is `v`,
+    the (first) one at the smallest distance -/
+def claimant (nx : Nat) (iA : Nat → Nat → Nat) (dA : Nat → Nat → Dist) (c v : Nat) : Option Nat :=
+  closest (fun r => dA r c) (positionsOf (colList nx iA c) v)
+
+theorem mem_colList {nx : Nat} {iA : Nat → Nat → Nat} {c r : Nat} (h : r < nx) : iA r c ∈ colList nx iA c :=
+  List.mem_map.mpr ⟨r, List.mem_range.mpr h, rfl⟩
+
+theorem mem_positionsOf_colList (nx : Nat) (iA : Nat → Nat → Nat) (c v r : Nat) :
+    r ∈ positionsOf (colList nx iA c) v ↔ r < nx ∧ iA r c = v := by
+  rw [mem_positionsOf]
+  unfold colList
+  by_cases h : r < nx
+  · simp [h]
+  · simp [h]
+
+theorem mem_closestRows_uniqueInds (nx : Nat) (iA : Nat → Nat → Nat) (dA : Nat → Nat → Dist) (c r : Nat) :
+    r ∈ closestRows uniqueInds nx (fun r => iA r c) (fun r => dA r c) ↔
+      r < nx ∧ claimant nx iA dA c (iA r c) = some r := by
+  constructor
+  · intro h
+    obtain ⟨hlt, p, hp, hp1, hpc⟩ := closestRows_spec uniqueInds_occSound nx _ _ h
+    refine ⟨hlt, ?_⟩
+    unfold uniqueInds at hp
+    obtain ⟨v, _, rfl⟩ := List.mem_map.mp hp
+    simp only at hp1 hpc
+    unfold claimant colList
+    rw [← hp1]; exact hpc
+  · rintro ⟨hlt, hc⟩
+    unfold closestRows
+    refine List.mem_filterMap.mpr ⟨(iA r c, positionsOf (colList nx iA c) (iA r c)), ?_, hc⟩
+    unfold uniqueInds
+    exact List.mem_map.mpr ⟨iA r c, (mem_uniqueVals _ _).mpr (mem_colList hlt), rfl⟩
+
+theorem mem_freeVals_uniqueInds (nx : Nat) (iA : Nat → Nat → Nat) (c : Nat) (sel : List Nat) (v : Nat) :
+    v ∈ freeVals uniqueInds nx (fun r => iA r c) sel ↔ v ∈ colList nx iA c ∧ v ∉ sel := by
+  unfold freeVals uniqueInds colList
+  simp [List.map_map, Function.comp_def, mem_uniqueVals]
+
+/-- one column of the repaired loop, declaratively: a row is marked now iff it is the closest claimant of
+    its candidate, the candidate is not under any earlier mark, and the row holds no earlier mark -/
+theorem M_stepCol_uniqueInds {nx : Nat} {iA : Nat → Nat → Nat} (dA : Nat → Nat → Dist) {s : St}
+    (h : Inv nx iA s) (c r : Nat) :
+    M (stepCol uniqueInds nx (fun r => iA r s.cols.length) (fun r => dA r s.cols.length) s).cols c r = true ↔
+      M s.cols c r = true ∨
+      (c = s.cols.length ∧ r < nx ∧ claimant nx iA dA c (iA r c) = some r ∧
+        (∀ c' r', M s.cols c' r' = true → iA r' c' ≠ iA r c) ∧ ∀ c', M s.cols c' r = false) := by
+  rw [M_stepCol_iff]
+  constructor
+  · rintro (hm | ⟨hc, h1, h2, h3, h4⟩)
+    · exact Or.inl hm
+    · subst hc
+      refine Or.inr ⟨rfl, h1, ((mem_closestRows_uniqueInds ..).mp h2).2, ?_, h4⟩
+      intro c' r' hm' heq
+      exact ((mem_freeVals_uniqueInds ..).mp h3).2 (heq ▸ h.sel c' r' hm')
+  · rintro (hm | ⟨hc, h1, h2, h3, h4⟩)
+    · exact Or.inl hm
+    · subst hc
+      refine Or.inr ⟨rfl, h1, (mem_closestRows_uniqueInds ..).mpr ⟨h1, h2⟩, ?_, h4⟩
+      refine (mem_freeVals_uniqueInds ..).mpr ⟨mem_colList h1, ?_⟩
+      intro hsel
+      obtain ⟨c', r', hm', hv⟩ := h.from_mark _ hsel
+      exact h3 c' r' hm' hv
+
+/-- columns already written are never changed -/
+theorem M_runCols_succ_of_lt (U : List Nat → List (Nat × List Nat)) (nx : Nat) (iA : Nat → Nat → Nat)
+    (dA : Nat → Nat → Dist) {K c : Nat} (hc : c < K) (r : Nat) :
+    M (runCols U nx iA dA (K + 1)).cols c r = M (runCols U nx iA dA K).cols c r := by
+  rw [runCols_succ]
+  unfold stepCol
+  simp only [M_append, runCols_length, hc, if_true]
+
+theorem M_runCols_stable (U : List Nat → List (Nat × List Nat)) (nx : Nat) (iA : Nat → Nat → Nat)
+    (dA : Nat → Nat → Dist) {K K' c : Nat} (hc : c < K') (hK : K' ≤ K) (r : Nat) :
+    M (runCols U nx iA dA K).cols c r = M (runCols U nx iA dA K').cols c r := by
+  induction K with
+  | zero => have : K' = 0 := by omega
+            subst this; rfl
+  | succ K ih =>
+    by_cases h : K' = K + 1
+    · subst h; rfl
+    · rw [M_runCols_succ_of_lt U nx iA dA (by omega) r]
+      exact ih (by omega)
+
+/-- The marker matrix of the repaired loop, declaratively (greedy specification): row `r` is marked in
+    column `c` iff it is the closest claimant of its `c`-th neighbour, that neighbour is under no mark of an
+    earlier column, and `r` holds no mark in an earlier column. -/
+theorem M_runCols_greedy (nx : Nat) (iA : Nat → Nat → Nat) (dA : Nat → Nat → Dist) {K c : Nat} (hc : c < K)
+    (r : Nat) :
+    M (runCols uniqueInds nx iA dA K).cols c r = true ↔
+      r < nx ∧ claimant nx iA dA c (iA r c) = some r ∧
+      (∀ c' r', c' < c → M (runCols uniqueInds nx iA dA K).cols c' r' = true → iA r' c' ≠ iA r c) ∧
+      ∀ c', c' < c → M (runCols uniqueInds nx iA dA K).cols c' r = false := by
+  rw [M_runCols_stable uniqueInds nx iA dA (Nat.lt_succ_self c) (by omega) r, runCols_succ]
+  have hinv := Inv_runCols uniqueInds_occSound nx iA dA c
+  have hstep := M_stepCol_uniqueInds dA hinv c r
+  rw [runCols_length] at hstep
+  rw [hstep]
+  have hold : ∀ c' r', M (runCols uniqueInds nx iA dA c).cols c' r' = true → c' < c := by
+    intro c' r' h
+    have := M_lt h
+    rwa [runCols_length] at this
+  have heq : ∀ c' r', c' < c →
+      M (runCols uniqueInds nx iA dA K).cols c' r' = M (runCols uniqueInds nx iA dA c).cols c' r' :=
+    fun c' r' h => M_runCols_stable uniqueInds nx iA dA h (by omega) r'
+  constructor
+  · rintro (hm | ⟨_, h1, h2, h3, h4⟩)
+    · exact absurd (hold c r hm) (Nat.lt_irrefl c)
+    · refine ⟨h1, h2, ?_, ?_⟩
+      · intro c' r' hlt hm'
+        rw [heq c' r' hlt] at hm'
+        exact h3 c' r' hm'
+      · intro c' hlt
+        rw [heq c' r hlt]
+        exact h4 c'
+  · rintro ⟨h1, h2, h3, h4⟩
+    refine Or.inr ⟨rfl, h1, h2, ?_, ?_⟩
+    · intro c' r' hm'
+      have hlt := hold c' r' hm'
+      rw [← heq c' r' hlt] at hm'
+      exact h3 c' r' hlt hm'
+    · intro c'
+      by_cases hlt : c' < c
+      · rw [← heq c' r hlt]; exact h4 c' hlt
+      · cases hm : M (runCols uniqueInds nx iA dA c).cols c' r
+        · rfl
+        · exact absurd (hold c' r hm) hlt
+
+theorem closest_isSome_of_mem {d : Nat → Dist} {occ : List Nat} {r : Nat} (h : r ∈ occ) :
+    ∃ x, closest d occ = some x := by
+  cases occ with
+  | nil => simp at h
+  | cons a t => exact ⟨_, rfl⟩
 
 end Kdt
